@@ -22,5 +22,5 @@ Your task: produce TWO independent, realistic changes to the (non-test) source c
 For each change i ∈ {{1,2}} deliver in {wt}-out/:
   * patch{'{i}'}.diff — `git diff` of the source change only (apply-able with `git apply` on a fresh checkout of the same commit);
   * demo{'{i}'}_test.go (a Go test file, say which package directory it must be copied into) or demo{'{i}'}/main.go — a demonstration that FAILS with the change and PASSES without it;
-  * a section in README.md: what the change is, why it breaks the property, what it needs in order to manifest, the exact commands to run the demonstration with and without the patch, and what you observed both ways; and the command(s) you used to confirm the existing tests still pass with the patch (run at least the tests of every package you touched and of the packages that import it: `go test -vet=off -count=1 ./pkg/...` is the full suite and takes a few minutes — run it once per patch).
-Verify everything yourself before reporting: patch applies on a clean checkout (`git stash`/`git checkout -- .` then `git apply`), builds (`go build ./...`), demo fails with it and passes without it, existing tests pass with it. Leave the worktree clean (no patch applied, no demo files) when you finish. Your final message: a short summary of the two changes and the verification results.""")
+  * a section in README.md: what the change is, why it breaks the property, what it needs in order to manifest, the exact commands to run the demonstration with and without the patch, and what you observed both ways; and the command(s) you used to confirm the existing tests still pass with the patch (run at least the tests of every package you touched and of the packages that import it: `go test -vet=off -count=1 ./pkg/...` is the full suite and takes a few minutes — run it once per patch; in this sandbox a few tests fail even on the unchanged tree because tests run as root and no agent bundle is built — pkg/agent TestExecutableForPlatform*, pkg/synchronization/core TestScan/TestTransition permission cases — and pkg/integration can fail spuriously with 'unable to acquire daemon lock' when several suites run at once: what matters is that no test changes status relative to the unchanged tree).
+Verify everything yourself before reporting: patch applies on a clean checkout (save your work with `git diff > file`, then `git checkout -- .` and `git apply file` — NEVER use `git stash`: the stash is shared with other people's worktrees of this repository), builds (`go build ./...`), demo fails with it and passes without it, existing tests pass with it. Leave the worktree clean (no patch applied, no demo files) when you finish. Your final message: a short summary of the two changes and the verification results.""")
